@@ -101,6 +101,8 @@ type laState struct {
 	abs     bool // offsets are also absolute indexes of l.src (the text before p was flushed, or p == 0)
 	stale   bool // the text before p was emitted (l.src moved) and p not yet reassigned
 	needCol bool // a rune step was taken: the next statement must be `l.column++`
+	runeEnd bool // `p += size - 1` of a rune: the rest of the iteration must be `l.column++` and the loop's `p++`
+	lineInc bool // `l.line++`: the next statement must be `l.column = 1`
 	vars    map[string]int
 	sizes   map[string]int
 	guard   []laLit
@@ -174,6 +176,8 @@ type laGen struct {
 	helpers map[string]*ast.FuncDecl // one-expression byte-slice predicates
 	bvars   map[string]string        // []byte("…") variables
 	joined  map[string]bool
+	next    ast.Stmt // the statement after the one being executed, in the same block
+	pv      string // the position variable of the code being executed: p, or the index of a byte walk
 	err     error
 }
 
@@ -181,6 +185,7 @@ type laGen struct {
 type laCtl struct {
 	brk  func(laState) // unlabelled break (innermost switch)
 	next func(laState) // fallthrough: body of the next case
+	cont func(laState) // continue of the innermost loop (nil: the main loop)
 }
 
 func (g *laGen) label(n ast.Node, text string) string {
@@ -197,6 +202,13 @@ func (g *laGen) fail(n ast.Node, format string, a ...any) {
 }
 
 func (g *laGen) segment(s laState, end string) {
+	if s.runeEnd {
+		// what follows `p += size - 1` is the rune's own column and last byte
+		// (a path that does anything else is listed as a segment: it passes only if its guard is contradictory)
+		if len(s.evs) == 2 && (s.evs[0] == laEv{"col", 1} && s.evs[1] == laEv{"adv", 1} || s.evs[0] == laEv{"adv", 1} && s.evs[1] == laEv{"col", 1}) {
+			return
+		}
+	}
 	if len(s.evs) == 0 {
 		return
 	}
@@ -264,6 +276,11 @@ func laIntLit(e ast.Expr) (int, bool) {
 	return 0, false
 }
 
+func laIsIntLit(e ast.Expr) bool {
+	_, ok := laIntLit(e)
+	return ok
+}
+
 func laCharLit(e ast.Expr) (byte, bool) {
 	if b, ok := e.(*ast.BasicLit); ok && b.Kind == token.CHAR {
 		r, _, _, err := strconv.UnquoteChar(b.Value[1:len(b.Value)-1], '\'')
@@ -280,7 +297,7 @@ func (g *laGen) pOffset(e ast.Expr, s *laState) (int, bool) {
 	if p, ok := e.(*ast.ParenExpr); ok {
 		return g.pOffset(p.X, s)
 	}
-	if laIsIdent(e, "p") {
+	if laIsIdent(e, g.pv) {
 		return s.d, !s.stale
 	}
 	if n, ok := laIntLit(e); ok && s.abs {
@@ -395,6 +412,24 @@ func (g *laGen) cond(e ast.Expr, s *laState, param string, poff int) laCond {
 			if o, ok := g.inBounds(x, s, param, poff); ok {
 				return laCond{T: [][]laLit{{{kind: "inb", off: o, pos: true}}}, F: [][]laLit{nil}}
 			}
+			// `c < N`, `c <= N`, `c >= N`, `c > N` for a byte of the source
+			if o, ok := g.byteOffset(x.X, s, param, poff); ok {
+				if n, ok := g.constInt(x.Y); ok {
+					bound, pos := n, true // c < bound
+					switch x.Op {
+					case token.LEQ:
+						bound = n + 1
+					case token.GEQ:
+						pos = false
+					case token.GTR:
+						bound, pos = n+1, false
+					}
+					lt := laLit{kind: "is", off: o, alts: fmt.Sprintf(".lt %d", bound), pos: pos}
+					ge := lt
+					ge.pos = !pos
+					return laCond{T: [][]laLit{{lt}}, F: [][]laLit{{ge}}}
+				}
+			}
 		}
 	case *ast.CallExpr:
 		if id, ok := x.Fun.(*ast.Ident); ok && len(x.Args) == 1 {
@@ -429,6 +464,20 @@ func (g *laGen) cond(e ast.Expr, s *laState, param string, poff int) laCond {
 		}
 	}
 	return laNoInfo
+}
+
+// constInt: an integer literal, a character literal or utf8.RuneSelf
+func (g *laGen) constInt(e ast.Expr) (int, bool) {
+	if n, ok := laIntLit(e); ok {
+		return n, true
+	}
+	if b, ok := laCharLit(e); ok {
+		return int(b), true
+	}
+	if g.src(e) == "utf8.RuneSelf" {
+		return 0x80, true
+	}
+	return 0, false
 }
 
 // byteEq: `x == y` where x denotes a byte of the source and y a character literal or `quote`
@@ -528,11 +577,26 @@ func (g *laGen) relevant(n ast.Node) bool {
 // isFlush: `l.emitAtLineColumn(…, p)`: the token takes the p bytes read so far, l.src moves to p
 func (g *laGen) isFlush(c *ast.CallExpr) bool {
 	name, ok := laLCall(c)
-	return ok && (name == "emitAtLineColumn" || name == "emit") && len(c.Args) > 0 && laIsIdent(c.Args[len(c.Args)-1], "p")
+	return ok && (name == "emitAtLineColumn" || name == "emit") && len(c.Args) > 0 && laIsIdent(c.Args[len(c.Args)-1], g.pv)
+}
+
+// keepsLineCol: the node changes l.column or l.line or calls l.newline()
+func (g *laGen) keepsLineCol(n ast.Node) bool {
+	found := false
+	ast.Inspect(n, func(m ast.Node) bool {
+		switch x := m.(type) {
+		case *ast.SelectorExpr:
+			if laIsSel(x, "l", "column") || laIsSel(x, "l", "line") || laIsSel(x, "l", "newline") {
+				found = true
+			}
+		}
+		return !found
+	})
+	return found
 }
 
 func (g *laGen) isBook(e ast.Expr) bool {
-	return laIsIdent(e, "p") || laIsSel(e, "l", "column") || laIsSel(e, "l", "line")
+	return laIsIdent(e, g.pv) || laIsSel(e, "l", "column") || laIsSel(e, "l", "line")
 }
 
 var laHandOver = map[string]bool{"scanTag": true, "scanAttribute": true, "scanCodeBlock": true, "skipRawContent": true,
@@ -582,11 +646,26 @@ func (g *laGen) block(stmts []ast.Stmt, s laState, ctl laCtl, top bool, k func(l
 		t.where = nil
 		s = t
 	}
+	g.next = nil
+	if len(stmts) > 1 {
+		g.next = stmts[1]
+	}
 	g.stmt(stmts[0], s, ctl, func(t laState) { g.block(stmts[1:], t, ctl, top, k) })
 }
 
 func (g *laGen) stmt(st ast.Stmt, s laState, ctl laCtl, k func(laState)) {
 	if g.err != nil {
+		return
+	}
+	if s.lineInc {
+		if x, ok := st.(*ast.AssignStmt); ok && len(x.Lhs) == 1 && laIsSel(x.Lhs[0], "l", "column") && x.Tok == token.ASSIGN && g.src(x.Rhs[0]) == "1" {
+			t := s.clone()
+			t.lineInc = false
+			t.evs = append(t.evs, laEv{"newline", 0})
+			k(t)
+			return
+		}
+		g.fail(st, "`l.line++` without `l.column = 1` directly after it")
 		return
 	}
 	if s.needCol {
@@ -606,7 +685,7 @@ func (g *laGen) stmt(st ast.Stmt, s laState, ctl laCtl, k func(laState)) {
 		g.block(x.List, s, ctl, false, k)
 	case *ast.IncDecStmt:
 		switch {
-		case laIsIdent(x.X, "p") && x.Tok == token.INC:
+		case laIsIdent(x.X, g.pv) && x.Tok == token.INC:
 			t := s.clone()
 			t.d++
 			t.evs = append(t.evs, laEv{"adv", 1})
@@ -616,7 +695,9 @@ func (g *laGen) stmt(st ast.Stmt, s laState, ctl laCtl, k func(laState)) {
 			t.evs = append(t.evs, laEv{"col", 1})
 			k(t)
 		case laIsSel(x.X, "l", "line") && x.Tok == token.INC:
-			g.fail(x, "l.line++ outside newline()")
+			t := s.clone()
+			t.lineInc = true
+			k(t)
 		default:
 			if g.isBook(x.X) {
 				g.fail(x, "bookkeeping statement")
@@ -651,14 +732,11 @@ func (g *laGen) stmt(st ast.Stmt, s laState, ctl laCtl, k func(laState)) {
 	case *ast.SwitchStmt:
 		g.switchStmt(x, s, ctl, k)
 	case *ast.ForStmt:
-		// the byte walk: `for ; p < t; p++ { if c = l.src[p]; c == '\n' { l.newline() } else if isStartChar(c) { l.column++ } }`
-		if g.src(x) == "for ; p < t; p++ { if c = l.src[p]; c == '\\n' { l.newline() } else if isStartChar(c) { l.column++ } }" {
-			k(laNewOrigin(g.handOver(s, "byte-walk")))
-			return
-		}
-		g.fail(x, "loop")
+		g.forStmt(x, s, k)
 	case *ast.BranchStmt:
 		switch {
+		case x.Tok == token.CONTINUE && x.Label == nil && ctl.cont != nil:
+			ctl.cont(s)
 		case x.Tok == token.CONTINUE && (x.Label == nil || x.Label.Name == "LOOP"):
 			g.segment(s, "continue")
 		case x.Tok == token.BREAK && x.Label != nil && x.Label.Name == "LOOP":
@@ -671,10 +749,10 @@ func (g *laGen) stmt(st ast.Stmt, s laState, ctl laCtl, k func(laState)) {
 			g.fail(x, "branch statement")
 		}
 	case *ast.ReturnStmt:
-		// scanCodeBlock: `return p + K, ctx` / `return p, ctx`
-		if len(x.Results) == 2 {
+		// `return p + K, ctx` (scanCodeBlock), `return name, p` (scanTag, scanAttribute): the position is the result that is p
+		for _, res := range x.Results {
 			t := s.clone()
-			if o, ok := g.pOffset(x.Results[0], &t); ok && o >= t.d {
+			if o, ok := g.pOffset(res, &t); ok && o >= t.d && !laIsIntLit(res) {
 				if o > t.d {
 					t.evs = append(t.evs, laEv{"adv", o - t.d})
 					t.d = o
@@ -689,6 +767,59 @@ func (g *laGen) stmt(st ast.Stmt, s laState, ctl laCtl, k func(laState)) {
 	}
 }
 
+// loopVar: the position variable of a loop: the variable of the post statement `v++`, or p for
+// `for p < len(l.src)`
+func (g *laGen) loopVar(x *ast.ForStmt) (string, bool) {
+	if x.Post != nil {
+		if inc, ok := x.Post.(*ast.IncDecStmt); ok && inc.Tok == token.INC {
+			if id, ok := inc.X.(*ast.Ident); ok {
+				return id.Name, true
+			}
+		}
+		return "", false
+	}
+	if x.Cond != nil && g.src(x.Cond) == g.pv+" < len(l.src)" && x.Init == nil {
+		return g.pv, true
+	}
+	return "", false
+}
+
+// forStmt: what is pending is settled; every path through one iteration is a segment of its own (its
+// origin is the position variable at the start of the iteration); after the loop nothing is known of p
+func (g *laGen) forStmt(x *ast.ForStmt, s laState, k func(laState)) {
+	if !g.relevant(x.Body) {
+		k(s)
+		return
+	}
+	pv, ok := g.loopVar(x)
+	if !ok {
+		g.fail(x, "loop")
+		return
+	}
+	t := g.handOver(s, "loop")
+	saved := g.pv
+	g.pv = pv
+	it := laState{vars: map[string]int{}, sizes: map[string]int{}, where: append(append([]string(nil), s.where...), g.label(x, "for"))}
+	if x.Cond != nil && g.src(x.Cond) == pv+" < len(l.src)" {
+		it.guard = []laLit{{kind: "inb", off: 0, pos: true}}
+	}
+	end := func(u laState) {
+		if x.Post != nil {
+			u = u.clone()
+			u.d++
+			u.evs = append(u.evs, laEv{"adv", 1})
+		}
+		g.segment(u, "next-iteration")
+	}
+	g.block(x.Body.List, it, laCtl{brk: func(u laState) { g.segment(u, "break") }, cont: end}, false, end)
+	g.pv = saved
+	if pv == saved {
+		t = laNewOrigin(t)
+		t.where = append(append([]string(nil), s.where...), g.label(x, "after-for"))
+	}
+	k(t)
+}
+
 func (g *laGen) assign(x *ast.AssignStmt, s laState, k func(laState)) {
 	touches := false
 	for _, l := range x.Lhs {
@@ -699,7 +830,7 @@ func (g *laGen) assign(x *ast.AssignStmt, s laState, k func(laState)) {
 		if name, ok := laLCall(x.Rhs[0]); ok && laHandOver[name] {
 			t := g.handOver(s, name)
 			for _, l := range x.Lhs {
-				if laIsIdent(l, "p") {
+				if laIsIdent(l, g.pv) {
 					t = laNewOrigin(t)
 				}
 			}
@@ -710,7 +841,7 @@ func (g *laGen) assign(x *ast.AssignStmt, s laState, k func(laState)) {
 	if len(x.Lhs) == 1 && len(x.Rhs) == 1 {
 		lhs, rhs := x.Lhs[0], x.Rhs[0]
 		switch {
-		case laIsIdent(lhs, "p") && x.Tok == token.ADD_ASSIGN:
+		case laIsIdent(lhs, g.pv) && x.Tok == token.ADD_ASSIGN:
 			if n, ok := laIntLit(rhs); ok {
 				t := s.clone()
 				t.d += n
@@ -720,19 +851,42 @@ func (g *laGen) assign(x *ast.AssignStmt, s laState, k func(laState)) {
 			}
 			if id, ok := rhs.(*ast.Ident); ok {
 				if o, ok := s.sizes[id.Name]; ok && o == s.d {
-					// a rune step: `l.column++` must follow
-					t := g.handOver(s, "rune")
+					// a rune step: `l.column++` directly before it or directly after it
+					colAfter := false
+					if inc, ok := g.next.(*ast.IncDecStmt); ok && laIsSel(inc.X, "l", "column") && inc.Tok == token.INC {
+						colAfter = true
+					}
+					colBefore := !colAfter && len(s.evs) > 0 && s.evs[len(s.evs)-1] == laEv{"col", 1}
+					u := s.clone()
+					if colBefore {
+						u.evs = u.evs[:len(u.evs)-1]
+					}
+					t := g.handOver(u, "rune")
 					g.runes = append(g.runes, laRune{name: g.fn + "/" + strings.Join(s.where, "/"), off: s.d, guard: s.guard})
 					t = laNewOrigin(t)
 					t.where = append(append([]string(nil), s.where...), "after-rune")
-					t.needCol = true
+					t.needCol = !colBefore
 					k(t)
 					return
 				}
 			}
+			// `p += size - 1`: all but the last byte of a rune; `l.column++` and the loop's `p++` follow
+			if b, ok := rhs.(*ast.BinaryExpr); ok && b.Op == token.SUB && g.src(b.Y) == "1" {
+				if id, ok := b.X.(*ast.Ident); ok {
+					if o, ok := s.sizes[id.Name]; ok && o == s.d && len(s.evs) == 0 {
+						g.runes = append(g.runes, laRune{name: g.fn + "/" + strings.Join(s.where, "/"), off: s.d, guard: s.guard})
+						t := s.clone()
+						t.base = t.d
+						t.where = append(t.where, "in-rune")
+						t.runeEnd = true
+						k(t)
+						return
+					}
+				}
+			}
 			g.fail(x, "advance of p")
 			return
-		case laIsIdent(lhs, "p") && x.Tok == token.ASSIGN:
+		case laIsIdent(lhs, g.pv) && x.Tok == token.ASSIGN:
 			if n, ok := laIntLit(rhs); ok {
 				// `p = 0` after the text was emitted (or with p == 0); `p = K`: the same and K bytes further
 				if !s.stale && !(s.abs && s.d == 0) {
@@ -761,7 +915,7 @@ func (g *laGen) assign(x *ast.AssignStmt, s laState, k func(laState)) {
 				k(t)
 				return
 			}
-			if laIsIdent(rhs, "p") && s.abs {
+			if laIsIdent(rhs, g.pv) && s.abs {
 				t := s.clone()
 				t.evs = append(t.evs, laEv{"col", s.d})
 				k(t)
@@ -993,7 +1147,7 @@ func genLexAdvance(repo string) (string, error) {
 	if loop == nil || g.src(loop.Cond) != "p < len(l.src)" || loop.Init != nil || loop.Post != nil {
 		return "", fmt.Errorf("shape not recognised: scan has no `LOOP: for p < len(l.src)`")
 	}
-	g.fn = "scan"
+	g.fn, g.pv = "scan", "p"
 	start := laState{vars: map[string]int{}, sizes: map[string]int{}, guard: []laLit{{kind: "inb", off: 0, pos: true}}}
 	g.block(loop.Body.List, start, laCtl{}, true, func(s laState) { g.segment(s, "end-of-body") })
 	if g.err != nil {
@@ -1009,6 +1163,40 @@ func genLexAdvance(repo string) (string, error) {
 	g.block(scb.Body.List, laState{vars: map[string]int{}, sizes: map[string]int{}}, laCtl{}, false, func(s laState) { g.segment(s, "end-of-body") })
 	if g.err != nil {
 		return "", g.err
+	}
+	// ---- scanTag, scanAttribute: the whole function; lexComment, skipRawContent: their byte walks
+	for _, name := range []string{"scanTag", "scanAttribute"} {
+		fd, err := g.funcDecl(f, "lexer", name)
+		if err != nil {
+			return "", err
+		}
+		g.fn, g.pv = name, "p"
+		g.block(fd.Body.List, laState{vars: map[string]int{}, sizes: map[string]int{}}, laCtl{}, false, func(s laState) { g.segment(s, "end-of-body") })
+		if g.err != nil {
+			return "", g.err
+		}
+	}
+	for _, name := range []string{"lexComment", "skipRawContent"} {
+		fd, err := g.funcDecl(f, "lexer", name)
+		if err != nil {
+			return "", err
+		}
+		g.fn, g.pv = name, "p"
+		walks := 0
+		ast.Inspect(fd.Body, func(n ast.Node) bool {
+			if fs, ok := n.(*ast.ForStmt); ok && g.keepsLineCol(fs.Body) && g.err == nil {
+				walks++
+				g.forStmt(fs, laState{vars: map[string]int{}, sizes: map[string]int{}}, func(laState) {})
+				return false
+			}
+			return true
+		})
+		if g.err != nil {
+			return "", g.err
+		}
+		if walks != 1 {
+			return "", fmt.Errorf("shape not recognised: %s has %d loops that keep line and column, expected 1", name, walks)
+		}
 	}
 	if len(g.segs) < 20 {
 		return "", fmt.Errorf("shape not recognised: only %d segments found", len(g.segs))
